@@ -8,9 +8,11 @@ import optsdom
 def build(ctx):
     ok, out = C.translate()      # Effects.v comes from translator-ssa (run and cached by translator/effects.go)
     ctx.log("translate", out)
-    if not ok or "translate: Effects:" in out:
+    if not ok or "translate: Effects:" in out or "translate: EffectsAlias:" in out:
         ctx.diag.append("translator failed: " + out[-400:])
-    C.prove(ctx, ["Props/C14.v"], ["Oblig/C14Obl.v", "Model/PurityFacts.v", "Model/EffectTable.v"])
+    C.prove(ctx, ["Props/C14.v", "Props/C14Alias.v"],
+            ["Oblig/C14Obl.v", "Model/PurityFacts.v", "Model/EffectTable.v",
+             "Oblig/C14AliasObl.v", "Model/PurityAliasFacts.v", "Model/AliasTable.v"])
     ok, out = C.build_harness()
     ctx.log("go build", out)
     if not ok:
